@@ -18,12 +18,13 @@ KINDS = ["FeatureLine", "RuleLine", "BackgroundLine", "ScenarioLine", "ExamplesL
 def _sink_intrinsic(I, st, fi, args, kwargs, n, tree):
     a = fi.node.args
     names = [p.arg for p in a.posonlyargs + a.args]
+    role_of = {v: k for k, v in N.SINK_PARAMS.items()}       # the bindings are keyed by role, whatever the parameters are called
     b = {}
     for i, nm in enumerate(names):
         if i < len(args):
-            b[nm] = args[i]
+            b[role_of.get(nm, nm)] = args[i]
         elif nm in kwargs:
-            b[nm] = kwargs[nm]
+            b[role_of.get(nm, nm)] = kwargs[nm]
     tree.append(("sink", b, getattr(n, "lineno", None)))
     return NONE
 
@@ -137,11 +138,10 @@ def rule_sink(rep: Report, rid_col="C04.col", rid_crlf="C16.crlf", want=("col", 
     rep.used_function(fi.qualname)
     tree, rv, st = I.run(SINK)
     p = fi.params()
-    tok = ("param", "token")
-    par = lambda n: ("param", n)
+    SP = N.SINK_PARAMS
+    tok = ("param", SP["token"])
+    par = lambda n: ("param", SP[n])
     kw = dict(file=fi.file, line=fi.node.lineno, function=fi.qualname)
-    if any(x not in p for x in ("token", "matched_type", "text", "keyword", "keyword_type", "indent", "items")):
-        raise AnalysisError(f"sink signature changed: {p}")
     ext = st.ext if st else {}
     line_indent = ("attr", ("attr", tok, "line"), N.INDENT)
     mi = ext.get((tok, "matched_indent"))
